@@ -370,6 +370,19 @@ def run(ctx):
                                     ctx.violation("%s:%s:%s->%s:second-conversion-of-an-edited-container:%s[%s]" % (kind, qt, u, v, name, label), {"edited_to": second, "got": got, "want": want, "db": kind}, replay={"kind": kind, "qt": qt, "u": u, "v": v, "x": 12.5})
                         except Exception as e:
                             ctx.violation("%s:%s:%s->%s:edited-container-raised" % (kind, qt, u, v), {"error": repr(e)[:200], "db": kind})
+                    # amounts handed over as a one-shot iterable (a generator, iter(), map(), reversed()) are the same amounts, in the
+                    # same order, as the list they were made from
+                    amounts = [-40.0, -1.5, 0.0, 1e-3, 1.0, 37.5, 273.15, 1e4]
+                    try:
+                        as_list = db.Convert(qt, u, v, list(amounts))
+                        for label, mk in (("generator", lambda z: (t for t in z)), ("iter", iter), ("map", lambda z: map(float, z)), ("reversed", lambda z: reversed(z[::-1])), ("dict keys", lambda z: dict.fromkeys(z).keys())):
+                            ctx.ev()
+                            got = db.Convert(qt, u, v, mk(amounts))
+                            if [float(t) for t in got] != as_list:
+                                ctx.violation("%s:%s:%s->%s:one-shot-iterable:%s" % (kind, qt, u, v, label), {"got": repr(got)[:200], "as_a_list": repr(as_list)[:200], "db": kind}, replay={"kind": kind, "qt": qt, "u": u, "v": v, "x": 37.5})
+                        ctx.count("one-shot iterables converted", 5)
+                    except Exception as e:
+                        ctx.violation("%s:%s:%s->%s:one-shot-iterable-raised" % (kind, qt, u, v), {"error": repr(e)[:200], "db": kind})
                     if n_big < 12:
                         n_big += 1
                         ctx.ev()
@@ -384,6 +397,33 @@ def run(ctx):
                         if ok is not True:
                             ctx.violation("%s:%s:%s->%s:large-integer-array" % (kind, qt, u, v), {"items": int(big.size), "problem": ok if ok is not False else "differs from the element-wise float conversion (or from the same amounts in a small array)", "db": kind}, replay={"kind": kind, "qt": qt, "u": u, "v": v, "x": 1500.0})
                 ctx.count("large integer arrays converted", n_big)
+                # the amounts the caller handed over are the caller's: after a conversion from or to *any* unit the container holds
+                # what it held, and asking again answers the same (so v -> u of the answer is a round trip of the original amounts)
+                n_kept = 0
+                for qt, us in sorted(by_qt.items()):
+                    if qt == "Unknown" or len(us) < 2:
+                        continue
+                    for i, u in enumerate(us):
+                        v = us[(i + 1) % len(us)]
+                        orig = [12.5, -3.0, 0.25, 1000.0]
+                        for label, box in (("ndarray", np.array(orig)), ("list", list(orig)), ("0-d ndarray", np.array(12.5))):
+                            ctx.ev()
+                            n_kept += 1
+                            try:
+                                before = box.copy() if hasattr(box, "copy") else list(box)
+                                a1 = db.Convert(qt, u, v, box)
+                                a1 = a1.copy() if hasattr(a1, "copy") else a1
+                                kept = np.array_equal(np.asarray(box), np.asarray(before))
+                                a2 = db.Convert(qt, u, v, box)
+                                again = np.array_equal(np.asarray(a1), np.asarray(a2))
+                                db.Convert(qt, v, u, a1)  # the answer, handed back for the way home, is the caller's too
+                                kept2 = np.array_equal(np.asarray(a1), np.asarray(a2))
+                            except Exception as e:
+                                ctx.violation("%s:%s:%s->%s:callers-container-raised:%s" % (kind, qt, u, v, label), {"error": repr(e)[:200], "db": kind})
+                                continue
+                            if not (kept and again and kept2):
+                                ctx.violation("%s:%s:%s->%s:callers-container-changed:%s" % (kind, qt, u, v, label), {"held": repr(before)[:120], "holds": repr(box)[:120], "same_answer_twice": bool(again), "db": kind}, replay={"kind": kind, "qt": qt, "u": u, "v": v, "x": 12.5})
+                ctx.count("caller's containers looked at after a conversion", n_kept)
             # slope sign of every unit (strictly increasing maps)
             if ctx.shard == 0:
                 for u, a in aff.items():
